@@ -11,7 +11,7 @@ mode flags that survive AssembleFile_InitPass), step machine spec/Driver_MC.tla.
 (G) generated histories: Driver_Gen_Hist.cfg = transition cover with a VIEW that distinguishes what the predecessor
     did (flags set, constructs left open, EXPECT pending, error), predecessor <= 2 line classes, successor 1
     (thorough 2) over 9 mode flags (DOTTEDSTRUCTS, RELAXED, PADDING, SUPMODE, ORG, RADIX, CHARSET, a symbol, CPU)
-    and their probes.  Rendered in Z80 / 8051 / 68000 / "no CPU statement" dialects (seed-chosen per file), every
+    and their probes, 2 tables (a macro, a function: defined by the predecessor, used by the successor).  Rendered in Z80 / 8051 / 68000 / "no CPU statement" dialects (seed-chosen per file), every
     file with the same block of definitions (macro, function, structure, symbol, section) so that surviving tables
     collide.  `asl f1 f2` is compared with TLC's Outcome (status, kept files, summary, channel counts) and,
     verdict-bearing for C18, file by file with `asl f1` / `asl f2`: code file bytes, <name>.log (-E), the
@@ -32,7 +32,13 @@ are compared pairwise with identical asflags only (options are per invocation).
 Finding on the pinned tree: DOTTEDSTRUCTS ON survives into the next file (and the next pass): DottedStructs is
 missing from AssembleFile_InitPass -> known_findings/C18.json, proposed_fixes/C18-dottedstructs-reset.diff.
 
-Mutations of the real code tried on scratch copies: see the builder's final report.
+Mutations of the real code (selftest/b218_mutants.py, scratch copies, all compile; `./check C18 --selftest`), every one
+reported as VIOLATION by the quick tier: RELAXED kept from the previous file; IfAsm initialised only for the first
+file; RadixBase not reset; ClearMacroList dropped (caught through golden pairs); function list kept (ClearFunctionList
+and the list head reset dropped); both clean-ups of the EXPECT list dropped; default CPU taken from the previous file;
+GlobErrFlag cleared by a later successful file; symbol table kept.  Equivalent mutants met on the way (no behaviour
+change, documented in the mutant file): dropping only one of two redundant resets (EXPECT list, FirstFunction/
+FirstSymbol + Clear...List), DoPadding default in InitPass (every SwitchTo_xxx sets it again).
 """
 import collections
 import json
@@ -90,7 +96,7 @@ def leakable(files):
     for i in range(len(files)):
         fl = {ln["f"] for ln in files[i] if ln["k"] == "flag"}
         for j in range(i + 1, len(files)):
-            s |= fl & {ln["f"] for ln in files[j] if ln["k"] == "probe"}
+            s |= fl & {ln["f"] for ln in files[j] if ln["k"] in ("probe", "use")}
     return s
 
 
@@ -288,9 +294,9 @@ def run_corpus(rep, bld, tier, execs):
         groups[tuple(t[3])].append(t)
     with Phase("corpus: %d solo runs" % len(tests)):
         solo = dict(zip([t[0] for t in tests], drvrun.run_many(bld, [corpus_job([t]) for t in tests])))
-    for t in tests:
-        if solo[t[0]].rc != 0:
-            raise CheckError("golden test %s does not assemble alone (rc=%s)" % (t[0], solo[t[0]].rc))
+    alone_bad = [t[0] for t in tests if solo[t[0]].rc != 0]
+    if alone_bad:       # not this property's business (the comparison joint vs. alone stays meaningful)
+        rep.drift("golden sources that do not assemble alone: %s" % alone_bad[:10])
     seqs = []
     r = rng("c18/corpus")
     if tier == "quick":
@@ -470,3 +476,25 @@ def replay(path):
     else:
         log("corpus sequence: run  asl %s  in a directory holding copies of the named golden tests" % " ".join(argv))
     return 0
+
+
+def selftest(tier):
+    """binding demonstration: (a) corrupted hook traces are rejected by Driver_Trace, (b) stored mutations of the
+    anchored code (selftest/b218_mutants.py, applied to scratch copies of the repository) make this check report
+    VIOLATION.  quick: 3 mutants, thorough: all of this property."""
+    import subprocess
+    import sys
+    bld = build.get("hook")
+    ok = drvtrace.selftest_corruptions(bld, log)
+    sys.path.insert(0, os.path.join(os.path.dirname(os.path.dirname(os.path.abspath(__file__))), "selftest"))
+    import b218_mutants
+    mine = [n for n in b218_mutants.MUTANTS if n.startswith("c18_")]
+    if tier == "quick":
+        mine = mine[:3]
+    for n in mine:
+        name, check, verdict = b218_mutants.run(n)
+        caught = "exit=1" in verdict
+        log("selftest: mutant %-28s %s  %s" % (name, "CAUGHT" if caught else "MISSED", verdict))
+        ok = ok and caught
+    log("selftest %s: %s" % (PID, "passed" if ok else "FAILED"))
+    return 0 if ok else 1
